@@ -436,7 +436,7 @@ func recvPriority(p *core.Prog, r *core.Report, rule string) {
 	if f := mustFunc(p, r, "", "messageExchange", "recvPeerFrame"); f != nil {
 		recvCh := p.Field("", "messageExchange", "recvCh")
 		errF := p.Field("", "errNotifier", "err")
-		isDrain := func(i ssa.Instruction) bool {
+		isDrainSel := func(i ssa.Instruction) bool {
 			sel, isSel := i.(*ssa.Select)
 			if !isSel || sel.Blocking {
 				return false
@@ -444,6 +444,24 @@ func recvPriority(p *core.Prog, r *core.Report, rule string) {
 			for _, st := range sel.States {
 				if st.Dir == types.RecvOnly && core.LoadedField(st.Chan) == recvCh {
 					return true
+				}
+			}
+			return false
+		}
+		isDrain := func(i ssa.Instruction) bool {
+			if isDrainSel(i) {
+				return true
+			}
+			// the non-blocking receive may live in a helper method
+			if c, isC := i.(*ssa.Call); isC {
+				if g := c.Call.StaticCallee(); g != nil && p.InAnalysed(g) && len(g.Blocks) > 0 {
+					has := false
+					core.EachInstr(g, func(j ssa.Instruction) {
+						if isDrainSel(j) {
+							has = true
+						}
+					})
+					return has
 				}
 			}
 			return false
